@@ -164,6 +164,17 @@ def normRowF (width : Nat) (vals : List Float) (jacs : List (List Float)) : Floa
   let nrm := Float.sqrt (vals.foldl (fun s v => s + v * v) 0)
   (nrm, (linRow width (vals.map (· / nrm)) vals jacs).2)
 
+/-! ## 2c. sub-systems -/
+
+/-- `assemble(equations=…, variables=…)` slices the full system: `trip` are the `(i, j, v)` entries of the full
+    Jacobian, `rows` / `cols` the selected global row / column indices in output order; the answer are the entries
+    of the sub-matrix (position in `rows`, position in `cols`, value). -/
+def sliceTrip (trip : List (Nat × Nat × Rat)) (rows cols : List Nat) : List (Nat × Nat × Rat) :=
+  trip.filterMap (fun t =>
+    match rows.findIdx? (· == t.1), cols.findIdx? (· == t.2.1) with
+    | some a, some b => some (a, b, t.2.2)
+    | _, _ => none)
+
 /-! ## 3. vocabulary -/
 
 /-- Node kinds in the auditor's notation together with the theorem of `Props.lean` that covers them.
